@@ -538,7 +538,10 @@ fn do_to_dot<W: Write>(
             else {
                 unreachable!();
             };
+            let esc = |s: &str| s.replace('\\', "\\\\").replace('"', "\\\"");
+            let literal = esc(&literal);
             if let Some(description) = description {
+                let description = esc(&description);
                 writeln!(
                     output,
                     r#"{indentation}{node_dot_id}[label="{pos}: \"{literal}\"\n\"{description}\""];"#
@@ -558,6 +561,7 @@ fn do_to_dot<W: Write>(
             let RegexInput::Nonterminal { nonterm, .. } = input else {
                 unreachable!()
             };
+            let nonterm = nonterm.replace('\\', "\\\\").replace('"', "\\\"");
             writeln!(
                 output,
                 r#"{indentation}{node_dot_id}[label="{pos}: <{nonterm}>"];"#
